@@ -157,6 +157,19 @@ def run_main_scenarios(spec, scratch):
                     res.append((extra_name, rca, rcb, p.returncode if p else 3, (p.stdout if p else '')[-400:]))
                 failed = any(r[1] != 0 or r[2] != 0 or r[3] == 1 for r in res)
                 outs.append({'args': [sc], 'exit': 1 if failed else 0, 'stdout': '\n'.join(f'{r[0]}: inovesa exits {r[1]}/{r[2]}; {r[4].strip()}' for r in res)})
+            elif sc == 'restart':
+                # C11: T1 then a continuation from the last record (and from a chosen record) against the uninterrupted run
+                cmpx = build_harness('h5_final_compare', scratch, hdf5=True)
+                res = []
+                for nm, extra in (('renorm0', []), ('norenorm', ['--RenormalizeCharge', '-1']), ('renorm7', ['--RenormalizeCharge', '7'])):
+                    common = ['-s', '64', '-N', '100', '-n', '25', '-I', '2e-3', '--SavePhaseSpace', '1'] + extra
+                    full, rc0, _ = run(common + ['-T', '2'], f'rs_{nm}_full')
+                    first, rc1, _ = run(common + ['-T', '1'], f'rs_{nm}_first')
+                    cont, rc2, _ = run(common + ['-T', '1', '-i', first], f'rs_{nm}_cont')
+                    p = subprocess.run([cmpx, full, cont, '5e-5'], capture_output=True, text=True, timeout=120) if not isinstance(cmpx, tuple) else None
+                    res.append((nm, (rc0, rc1, rc2), p.returncode if p else 3, (p.stdout if p else '')[-300:]))
+                failed = any(any(r[1]) or r[2] == 1 for r in res)
+                outs.append({'args': [sc], 'exit': 1 if failed else 0, 'stdout': '\n'.join(f'{r[0]}: inovesa exits {r[1]}; {r[3].strip()}' for r in res)})
             elif sc == 'interrupt':
                 worst = 0
                 text = []
